@@ -52,3 +52,65 @@ def balance_sheet(snap, scale):
             if not near(n["value"], exp, scale):
                 out.append(("security_value", name, exp, n["value"]))
     return out
+
+
+# ----------------------------------------------------------------------
+# C05: brute-force sizing reference
+
+
+def trade_cost(q, p, m, spread, fee):
+    """total cost of trading q units (cost(0) = 0)"""
+    if q == 0:
+        return 0.0
+    c = q * p * m + abs(q) * 0.5 * (spread or 0.0) * m
+    if fee is not None:
+        c += fee(q, p * m)
+    return c
+
+
+def fee_in_domain(p, m, spread, fee, qmax=64):
+    """non-decreasing in size, marginal and fixed part below unit price minus half spread"""
+    unit = p * m - 0.5 * (spread or 0.0) * m
+    if unit <= 0:
+        return False
+    if fee is None:
+        return True
+    prev = 0.0
+    for sign in (1, -1):
+        prev = 0.0
+        for n in list(range(1, 9)) + [16, 17, 63, 64, 1000, 1001]:
+            f = fee(sign * n, p * m)
+            if f < 0 or f + 1e-12 < prev and n not in (16, 63, 1000):
+                return False
+            prev = f
+        if not fee(sign * 1, p * m) < unit:
+            return False
+        for n in (1, 2, 3, 8, 16, 63, 1000):
+            if not (fee(sign * (n + 1), p * m) - fee(sign * n, p * m)) < unit:
+                return False
+    return True
+
+
+def largest_affordable(amount, p, m, spread, fee):
+    """max{q in Z : cost(q) <= amount}; cost is strictly increasing in q inside the domain"""
+    hi = int(math.floor(amount / (p * m))) + 2
+    if trade_cost(hi, p, m, spread, fee) <= amount:
+        # should not happen inside the domain (cost(q) >= q*p*m), but stay exact: walk up
+        while trade_cost(hi + 1, p, m, spread, fee) <= amount:
+            hi += 1
+        return hi
+    step = 1
+    lo = hi - 1
+    while trade_cost(lo, p, m, spread, fee) > amount:
+        step *= 2
+        lo = hi - step
+        if step > 1 << 40:
+            return None
+    # invariant: cost(lo) <= amount < cost(hi)
+    while hi - lo > 1:
+        mid = (lo + hi) // 2
+        if trade_cost(mid, p, m, spread, fee) <= amount:
+            lo = mid
+        else:
+            hi = mid
+    return lo
